@@ -204,8 +204,13 @@ func init() {
 		return []cty.Value{c, k}
 	})
 	regStd("Index", stdlib.IndexFunc, func(r *rng.R) []cty.Value {
-		c := []cty.Value{seqVal(r), mapping(r)}[r.Intn(2)]
+		c := []cty.Value{seqVal(r), mapping(r), kv(r, tupleOf(r, r.Intn(4)))}[r.Intn(3)]
 		k := []cty.Value{idx(r), cty.StringVal([]string{"a", "b", "k1", "zz"}[r.Intn(4)])}[r.Intn(2)]
+		if r.Chance(40) && c.IsKnown() && !c.IsNull() && (c.Type().IsTupleType() || c.Type().IsListType()) {
+			// the ends of the index range: first, last, one past the last, one before the first
+			n := c.LengthInt()
+			k = cty.NumberIntVal(int64([]int{0, n - 1, n, n + 1, -1}[r.Intn(5)]))
+		}
 		return []cty.Value{c, k}
 	})
 	regStd("Length", stdlib.LengthFunc, func(r *rng.R) []cty.Value { return []cty.Value{[]cty.Value{seqVal(r), mapping(r), str(r)}[r.Intn(3)]} })
@@ -339,6 +344,16 @@ func init() {
 			} else {
 				vs = cty.ListVal(l)
 			}
+		}
+		if r.Chance(30) && ks.IsKnown() && !ks.IsNull() && ks.LengthInt() > 0 {
+			// a known list of keys with an unknown (or null) key inside
+			es := ks.AsValueSlice()
+			if r.Chance(80) {
+				es[r.Intn(len(es))] = cty.UnknownVal(cty.String)
+			} else {
+				es[r.Intn(len(es))] = cty.NullVal(cty.String)
+			}
+			ks = cty.ListVal(es)
 		}
 		return []cty.Value{ks, vs}
 	})
